@@ -458,9 +458,29 @@ def install():
 
     def __call__(self, alpha, input):
         STATE.count["Prox.__call__"] += 1
+        pre = None
+        if isinstance(input, np.ndarray) and input.size <= (1 << 16):
+            try:
+                pre = (digest(input), param_digests(self))
+            except Exception:
+                pre = None
         try:
             return contracted(self, alpha, input)
         except Exception as e:
+            if pre is not None:
+                # a rejected / failed call must not leave the caller's array or the arrays the
+                # prox was built from modified either (the postcondition does not run on raise)
+                try:
+                    if digest(input) != pre[0]:
+                        STATE.event("C02", "prox-input-mutated",
+                                    "%s raised and left its input modified" % type(self).__name__)
+                    for k_, v_, h_ in pre[1]:
+                        if digest(v_) != h_:
+                            STATE.event("C02", "prox-param-mutated",
+                                        "%s raised and left captured array %r modified" % (
+                                            type(self).__name__, k_))
+                except Exception:
+                    pass
             if in_chain(e, "_vf_unresolvable"):
                 try:
                     e._vf_unresolvable = True
